@@ -1,6 +1,7 @@
 """C15 — prune removes exactly the offending subtrees and nothing else."""
 from hypothesis import strategies as st
 from metapype.eml import rule as R
+from vf.shipped import RULES
 from metapype.eml import validate
 from metapype.eml.exceptions import MetapypeRuleError
 from metapype.model.node import Node
@@ -26,9 +27,9 @@ ASSUMPTIONS = [
 
 def allowed(name):
     rn = R.node_mappings.get(name)
-    if rn is None or rn not in R.rules_dict:
+    if rn is None or rn not in RULES:
         return set()
-    return set(lang.spec_names(R.rules_dict[rn][1]))
+    return set(lang.spec_names(RULES[rn][1]))
 
 
 def node_valid(n):
